@@ -12,6 +12,7 @@ func init() {
 		lean:    []string{"JSight.Props.C07"},
 		exes:    []string{"jsight-ctx"},
 		run:     runC07,
+		assume:  []string{"catalog equality of a document and its inlining is decided by search (C04), the theorem is about the directive forest", "enum rules registered at paste time are modelled by name only"},
 		rule:    "generated directive sequences with 1..4 macros (defined before or after use, with or without parentheses, pasting one another to any depth, cycles of length 1..4, unused macros) and pastes at top level, under URL, method, request, response, info, server; non-trivial = at least one PASTE is expanded; distinct = distinct token sequence",
 		trusted: []string{"the rendering of kind sequences to bytes; catalog equality of a document and its inlining is checked by search on the implementation (C04 gives the catalog model)"},
 	}
